@@ -45,3 +45,13 @@ def _c05_marker(line):
                 return True
             return glued and re.search(rb"/[0-9]", raw) is not None
     return False
+
+
+@sig("C12-empty-header-name")
+def _c12_empty_name(line):
+    """proxy language: some header line of the client's request head has an empty (or blank) name"""
+    head = fed(line).split(b"\r\n\r\n")[0]
+    for l in head.split(b"\r\n")[1:]:
+        if b":" in l and l.split(b":", 1)[0].strip(b" \t\r\n\x0b\x0c") == b"":
+            return True
+    return False
